@@ -108,13 +108,13 @@ func (v VLA) analyzeVLAForMarshaling() (*vlaMarshalingContext, error) {
 		return nil, err
 	}
 
-	ctx.commonSLBM = commonSLBMValues(ctx.slMBs[:])
+	ctx.commonSLBM = commonSLBMValues(ctx.slMBs[:v.RTPStreamCount])
 
 	// RID, NS, sl_bm fields
 	if ctx.commonSLBM != 0 {
 		ctx.requiredLen = 1
 	} else {
-		ctx.requiredLen = 3
+		ctx.requiredLen = 2 + (v.RTPStreamCount-1)/2
 	}
 
 	// #tl fields
